@@ -539,6 +539,9 @@ func (r *Run) Start(cfg simrt.Config) *simrt.Sim {
 func (r *Run) Finish(out simrt.Outcome) {
 	r.Res.Outcome = out.Kind.String()
 	r.Res.Detail = out.Detail
+	if out.Kind == simrt.Fatal && strings.HasPrefix(out.Detail, "simrt:") {
+		r.Res.Outcome = "harness-panic" // the simulator lost track of the system: harness trouble, never a violation
+	}
 	r.Res.SimNs = int64(r.Sim.Now())
 	r.Sim.Finish()
 }
